@@ -15,7 +15,7 @@ public entry point (setBoundaryCondition with constants or strings, setLeft/Righ
 the model made or on one passed to the constructor; earlier calls overwritten, foreign names, invalid arguments); the stored
 dictionaries are compared with the specification after every call and with the Lean model (verb dif.bcops); `entry_cases` runs such
 histories alone on a bare DiffusionModel."""
-import contextlib, io, math, os, traceback, warnings
+import contextlib, io, math, os, random, traceback, warnings
 import numpy as np
 import vlib
 from vlib import Result, enc_list, enc_ilist, f2b, Toks, close
@@ -115,6 +115,19 @@ def gen_profile(rng, E, z0, L, kind, minC=1e-8):
                 prof.append([['step', 0.0, 1.0, zm]])
             else:
                 prof.append([['linear', 0.0, 0.0]])
+        return prof
+    if kind == 'rich-inflow':
+        # one element rich everywhere (no node near the minimum composition), the others small but well above the minimum: a strong
+        # inflow of the rich element then drives boundary nodes towards and past 1 - minComposition while NO node is below the minimum
+        big = rng.randrange(E)
+        hi = rng.uniform(0.88, 0.995)
+        room = (1.0 - hi) / max(1, E)
+        for e in range(E):
+            if e == big:
+                prof.append([['linear', hi, hi * rng.uniform(0.97, 1.0)]] if rng.random() < 0.5 else [['linear', hi * rng.uniform(0.97, 1.0), hi]])
+            else:
+                v = room * rng.uniform(0.2, 0.6)
+                prof.append([['linear', v, v]])
         return prof
     if kind == 'sum>1':
         for e in range(E):
@@ -342,6 +355,18 @@ def gen_case(rng, thorough=False):
         heps=rng.choice([0.05, 0.05, 0.01, 0.0]), nphases=rng.choice([1, 2, 2]), hpost=rng.choice(['none', 'none', 'majority']),
         mobless=rng.random() < 0.2,
     )
+    # round 7: about one case in twelve becomes a 'rich-inflow' case - drawn from a generator of its own (seeded by the case) so that
+    # the stream of the cases above is what it was.  One element rich at every node, nothing near the minimum composition, and a
+    # strong inflow of the rich element (left: positive flux, right: negative flux) - the upper bound 1 - minComposition is then the
+    # only bound postProcess has to enforce
+    r2 = random.Random(case['tseed'] ^ 0x5EED7)
+    if r2.random() < 0.085:
+        prof = gen_profile(r2, E, z0, L, 'rich-inflow', minC)
+        big = max(range(E), key=lambda e: max(prof[e][0][1], prof[e][0][2]))
+        bc2 = [[[r2.choice(['default', 'flux0']), 0.0] for _ in range(2)] for _ in range(E)]
+        for sd in r2.choice([[0], [1], [0, 1]]):
+            bc2[big][sd] = ['flux', (1 if sd == 0 else -1) * 10 ** r2.uniform(1.5, 3.0)]
+        case.update(profile=prof, pkind='rich-inflow', bc=bc2, bcops=gen_bcops(r2, bc2, E, none_key=False))
     return case
 
 
